@@ -247,6 +247,17 @@ Proof.
   - rewrite Hv. pcmove. destruct Hpc as [[-> _]|[-> _]]; constructor.
 Qed.
 
+Lemma spin_exit_view s h : (busy (hs s h) =? 0) = true ->
+  view (spin_step s h) =
+  mkA (hupd (hs s) h set_unl) (snd s) (remove_h h (lst s)) (efd s)
+      (if l_incb (lp s) then LInCb else LTop) (remove_h h (l_queue (lp s))) (l_incb (lp s)).
+Proof. intros H. unfold spin_step. rewrite H. reflexivity. Qed.
+
+Lemma spin_stay_view s h : (busy (hs s h) =? 0) = false ->
+  view (spin_step s h) =
+  mkA (hs s) (snd s) (lst s) (efd s) (LSpin h) (l_queue (lp s)) (l_incb (lp s)).
+Proof. intros H. unfold spin_step. rewrite H. reflexivity. Qed.
+
 Lemma step_astep s t s' : step s t = Some s' -> astep (view s) (view s').
 Proof.
   intros H. step_inv H.
@@ -267,12 +278,12 @@ Proof.
   - simp. apply (AL_call (view s) h); auto.
   - destruct (scan_next_view s) as (p & Hp & Hv). rewrite Hv. pcmove. constructor; auto.
   - apply close_begin_astep; [reflexivity | right; auto].
-  - unfold spin_step. destruct (busy (hs s h) =? 0) eqn:Eb.
-    + simp. apply (AL_unlink (view s) h); [left; auto | cbn; lia].
-    + simp. pcmove. constructor.
-  - unfold spin_step. destruct (busy (hs s h) =? 0) eqn:Eb.
-    + simp. apply (AL_unlink (view s) h); [right; auto | cbn; lia].
-    + simp. pcmove. constructor.
+  - destruct (busy (hs s h) =? 0) eqn:Eb.
+    + rewrite (spin_exit_view s h Eb). apply (AL_unlink (view s) h); [left; auto | cbn; lia].
+    + rewrite (spin_stay_view s h Eb). pcmove. constructor.
+  - destruct (busy (hs s h) =? 0) eqn:Eb.
+    + rewrite (spin_exit_view s h Eb). apply (AL_unlink (view s) h); [right; auto | cbn; lia].
+    + rewrite (spin_stay_view s h Eb). pcmove. constructor.
   - simp. eapply (AS_pub (view s)); eauto.
   - simp. eapply (AS_ret (view s)); eauto.
   - simp. eapply (AS_load (view s)); eauto.
